@@ -1654,6 +1654,41 @@ pub fn token_pairs(rng: &mut Rng) -> String {
     s
 }
 
+/// `opgap` family: an operator that starts a line of the input behind a token class after which `TokenSpacing` leaves
+/// "no space" to the operator's own rule (a closing generic bracket, `)`, `]`, `^`, a literal, an identifier):
+/// well-formed declarations and statements in which the gap before the operator is empty, blanks, or a line break
+/// with any indentation.  If the operator's rule does not restore its space the two tokens are glued (`>` `=`
+/// re-scans as `>=`, `>` `.` …).
+pub fn op_gap(rng: &mut Rng) -> String {
+    let gap = *rng.pick(&["", " ", "  ", "\n", "\n      ", "\n  ", " \n", "\t"]);
+    let gap2 = *rng.pick(&["", " ", "\n    "]);
+    let lhs = *rng.pick(&["TFoo<T>", "TList<Integer>", "TDict<string, TList<Integer>>", "Foo(1)", "A[1]", "P^", "X", "TArray<Integer>", "TFoo<T>.TBar<U>"]);
+    let op = *rng.pick(&["=", "=", "<>", "<", ">", "<=", ">=", ":=", "*", "/", "+", "-", ".", "..", "^", "@", "in", "is", "as"]);
+    match rng.below(6) {
+        0 => format!("type\n  {lhs}{gap}= class\n  end;\n"),
+        1 => format!("type\n  TRec = record\n  end;\n  {lhs}{gap}={gap2}record\n  end;\n"),
+        2 => format!("const\n  C: {lhs}{gap}={gap2}[1, 2];\n"),
+        3 => format!("begin\n  if {lhs}{gap}{op}{gap2}AClass then\n    Exit;\nend;\n"),
+        4 => format!("begin\n  X := {lhs}{gap}{op}{gap2}Y;\nend;\n"),
+        _ => format!("var\n  V: {lhs}{gap}={gap2}nil;\nbegin\n  Y := {lhs}{gap}.Create;\nend;\n"),
+    }
+}
+
+/// `unclosed` family: a conditional-compilation block that is never closed (`{$ifdef}` … `{$else}` … end of file, no
+/// `{$endif}`), so that the end-of-file token belongs to the last branch only, and whose earlier branch ends in the
+/// middle of a construct (an opening bracket, a keyword that expects more, an operator): every loop of the parser
+/// that runs "until the closer or the end of the file" meets a pass without an end-of-file token.
+pub fn unclosed_conditional(rng: &mut Rng) -> String {
+    let open = *rng.pick(&["{$ifdef A}", "{$IFNDEF B}", "{$if defined(X)}", "(*$ifdef C*)", "{$ifopt R+}"]);
+    let pre = *rng.pick(&["", "begin\n", "procedure P;\nbegin\n", "unit U;\ninterface\n", "type T = class\n", "x := Foo", "const C = ", "external 'lib' name "]);
+    let tail = *rng.pick(&["[", "(", "<", "Foo(", "A[", "TList<", "begin", "case x of", "x :=", "if a then", "try", "record", "class", "Foo.", "procedure Bar(", "repeat", "1 +", "'s' +", "@", "^", "uses", "asm", "function F: ", "property P: Integer read", "while x do", "for i := 1 to", "with x do", "raise", "inherited", "goto", "label", "exports", "[Attr", "var x:", ""]);
+    let mid = *rng.pick(&["{$else}", "{$ELSE}", "{$elseif Z}", "{$else}{$ifdef D}", "{$else} // c"]);
+    let rest = *rng.pick(&["x;", "", "end;", "end.", ")", "]", ">", "x := 1;\nend.", "// c", "{$endif", "y(", "begin"]);
+    let nl = *rng.pick(&["\n", " ", "\n\n"]);
+    let close = if rng.chance(1, 6) { "\n{$endif}" } else { "" };
+    format!("{pre}{open}{nl}{tail}{nl}{mid}{nl}{rest}{close}\n")
+}
+
 /// `deepnest` family: one construct nested many levels deep (the shapes whose cost must stay polynomial): anonymous
 /// routines as call arguments with long sibling arguments, parentheses, begin/end, if/else chains, case, try, generic
 /// brackets, conditional directives
